@@ -228,7 +228,30 @@ pub mod hash_map {
         pub(super) map: &'a mut HashMap<K, V>,
         pub(super) key: K,
     }
+    impl<'a, K: Copy + PartialEq, V> Entry<'a, K, V> {
+        pub fn or_insert_with<F: FnOnce() -> V>(self, f: F) -> &'a mut V {
+            match self {
+                Entry::Occupied(e) => e.into_mut(),
+                Entry::Vacant(e) => e.insert(f()),
+            }
+        }
+        pub fn or_insert(self, v: V) -> &'a mut V {
+            self.or_insert_with(|| v)
+        }
+        pub fn and_modify<F: FnOnce(&mut V)>(mut self, f: F) -> Self {
+            if let Entry::Occupied(e) = &mut self {
+                f(e.get_mut());
+            }
+            self
+        }
+    }
     impl<'a, K: Copy + PartialEq, V> OccupiedEntry<'a, K, V> {
+        pub fn into_mut(self) -> &'a mut V {
+            &mut self.map.slots[self.idx].as_mut().unwrap().1
+        }
+        pub fn remove(self) -> V {
+            self.map.slots[self.idx].take().unwrap().1
+        }
         pub fn get(&self) -> &V {
             &self.map.slots[self.idx].as_ref().unwrap().1
         }
